@@ -142,15 +142,15 @@ Proof.
   - destruct (a_local a) as [kl|].
     + inversion H; subst. apply in_or_app. left. left. reflexivity.
     + destruct (a_acquire a) as [ka|]; [|discriminate].
+      destruct (negb (hex_ok (key_value ka))); [discriminate|].
       destruct (negb (a_store a)); [discriminate|].
       destruct (negb (check_ok ka (a_readback a))); [discriminate|].
-      destruct (negb (hex_ok (key_value ka))); [discriminate|].
       destruct (negb (a_attest a)); [discriminate|].
       inversion H; subst. cbn. left. reflexivity.
   - destruct (a_acquire a) as [ka|]; [|discriminate].
+    destruct (negb (hex_ok (key_value ka))); [discriminate|].
     destruct (negb (a_store a)); [discriminate|].
     destruct (negb (check_ok ka (a_readback a))); [discriminate|].
-    destruct (negb (hex_ok (key_value ka))); [discriminate|].
     destruct (negb (a_attest a)); [discriminate|].
     inversion H; subst. apply in_or_app. right. left. reflexivity.
 Qed.
@@ -161,14 +161,14 @@ Proof.
   destruct (d_guid d) as [g|]; cbn [app].
   - destruct (a_local a); [reflexivity|].
     destruct (a_acquire a); [|reflexivity].
+    destruct (negb (hex_ok (key_value k))); [reflexivity|].
     destruct (negb (a_store a)); [reflexivity|].
     destruct (negb (check_ok k (a_readback a))); [reflexivity|].
-    destruct (negb (hex_ok (key_value k))); [reflexivity|].
     destruct (negb (a_attest a)); reflexivity.
   - destruct (a_acquire a); [|reflexivity].
+    destruct (negb (hex_ok (key_value k))); [reflexivity|].
     destruct (negb (a_store a)); [reflexivity|].
     destruct (negb (check_ok k (a_readback a))); [reflexivity|].
-    destruct (negb (hex_ok (key_value k))); [reflexivity|].
     destruct (negb (a_attest a)); reflexivity.
 Qed.
 
@@ -421,7 +421,7 @@ Proof.
   apply andb_true_iff in Hr. destruct Hr as [Hr H4].
   apply andb_true_iff in Hr. destruct Hr as [Hr H3].
   apply andb_true_iff in Hr. destruct Hr as [H1 H2].
-  rewrite H1, H2, H3, H4. cbn [negb]. eexists. eexists. split; reflexivity.
+  rewrite H3, H1, H2, H4. cbn [negb]. eexists. eexists. split; reflexivity.
 Qed.
 
 Lemma opt_beq_eq : forall a b, opt_beq a b = true -> a = b.
